@@ -2823,6 +2823,8 @@ class Union(Generic, ValueSpecBase):
 
   def is_compatible(self, other: ValueSpec) -> bool:
     """Union specific compatibility check."""
+    if not self.is_noneable and other.is_noneable:
+      return False
     if isinstance(other, Union):
       for oc in other.candidates:
         if not self.is_compatible(oc):
